@@ -138,6 +138,30 @@ class Registry:
             key = f"str.{attr}"
             if key in self.handlers:
                 return Fn(self.handlers[key], key, bound=o)
+            if hasattr(str, attr) and not attr.startswith("__") and not o.v.startswith("<"):
+                def generic(i2, a, k, n2, _attr=attr):
+                    def conc(v):
+                        if isinstance(v, Str):
+                            return v.v
+                        if isinstance(v, Z) and z3.is_int_value(z3.simplify(v.e)):
+                            return z3.simplify(v.e).as_long()
+                        if isinstance(v, Tup):
+                            return tuple(conc(x) for x in v.items)
+                        raise Unsupported(f"str.{_attr} with a symbolic argument")
+                    r = getattr(a[0].v, _attr)(*[conc(x) for x in a[1:]], **{kk: conc(vv) for kk, vv in k.items()})
+
+                    def wrap(r):
+                        if isinstance(r, bool):
+                            return B(r)
+                        if isinstance(r, int):
+                            return I(r)
+                        if isinstance(r, str):
+                            return Str(r)
+                        if isinstance(r, (list, tuple)):
+                            return PyList([wrap(x) for x in r]) if isinstance(r, list) else Tup([wrap(x) for x in r])
+                        raise Unsupported(f"str.{_attr} result")
+                    return wrap(r)
+                return Fn(generic, key, bound=o)
         if isinstance(o, Sym):
             key = f"{o.tag}.{attr}"
             if key in self.handlers:
@@ -820,7 +844,7 @@ def install_builtins(reg: Registry):
         if nm == "set":
             return False
         if nm in ("ndarray",):
-            return isinstance(v, Arr)
+            return isinstance(v, Arr) or (isinstance(v, Obj) and v.cls == "StrArray")
         if isinstance(v, Obj):
             if v.cls in i.front.classes:
                 return i.front.is_subclass(v.cls, nm)
